@@ -38,6 +38,10 @@ RANDOM = {'quick': 2400, 'thorough': 400000}
 GENERATED = {'quick': 720, 'thorough': 40000}
 
 
+class LabelNotBool(Exception):
+    pass
+
+
 def analyse(desc, order, child_edges=None):
     from maltoolbox.attackgraph.analyzers.apriori import calculate_viability_and_necessity
     g, objs = agraph.build(desc, order=order, child_orders=child_edges)
@@ -48,6 +52,11 @@ def analyse(desc, order, child_edges=None):
             g.add_attacker(Attacker(name='a%d' % k, entry_points=[], reached_attack_steps=[]),
                            reached_attack_steps=[objs[i % len(objs)].id for i in reached])
     calculate_viability_and_necessity(g)
+    for o in objs:
+        if not isinstance(o.is_viable, bool) or not isinstance(o.is_necessary, bool):
+            # a label is True or False ("viable iff", "necessary iff"); None or a dict reads as a truth value here but
+            # not in `is False`, in to_dict() or after save / load
+            raise LabelNotBool('node %s (%s) is labelled is_viable=%r is_necessary=%r' % (o.full_name, o.type, o.is_viable, o.is_necessary))
     return [(bool(o.is_viable), bool(o.is_necessary)) for o in objs], g, objs
 
 
@@ -116,6 +125,8 @@ def check_desc(desc, orders, res, count=True, shuffle_edges=None, redo=None):
             shuffle_edges.shuffle(edges)
         try:
             lab, g, objs = analyse(desc, order, edges)
+        except LabelNotBool as exc:
+            return ('apriori:label-is-not-a-boolean', '%s (node order %s)' % (exc, list(order)))
         except RecursionError:
             return ('apriori:raised-RecursionError', 'the analysis did not terminate (recursion limit) for node order %s' % (list(order),))
         except Exception as exc:
